@@ -517,7 +517,7 @@ func Cow(p *core.Prog, r *core.Report) {
 				owner := core.FuncName(core.EnclosingTop(f))
 				if rc := core.EnclosingTop(f).Signature.Recv(); rc != nil {
 					if n := core.NamedOf(rc.Type()); n != nil {
-						owner = n.Obj().Name()
+						owner = core.KnownTypeName(n)
 					}
 				}
 				srcDesc := describe(c.Call.Args[0])
